@@ -290,6 +290,10 @@ def _generate_sample_with_postselect(
 
         for k in range(1, n + 1):
             if reject_condition():
+                # NOTE: A lost photon can also make the postselection infeasible.
+                if track_photons_needed and photons_needed > n - k:
+                    break
+
                 continue
 
             current_input, to_shrink = _grow_current_input(
